@@ -437,7 +437,7 @@ func TestC21(t *testing.T) {
 			"'cursor strictly advances' is checked as: no cursor value is returned twice within one pagination and the pagination ends within n+2 pages",
 			"the state does not change during pagination (KeyTTL 1 h, no writers)",
 		},
-		Cases:           map[string]int{"quick": 1600, "thorough": 24000},
+		Cases:           map[string]int{"quick": 1600, "thorough": 16000},
 		Bubble:          true,
 		RequireCounters: []string{"ordered_ties", "extreme_scores", "negative_scores", "nul_keys", "non_ascii_keys", "prefix_keys", "empty_state", "single_key_reads", "single_key_absent", "after_churn", "ordered_channels", "unordered_channels", "pages_read"},
 		Run:             runCase,
